@@ -15,7 +15,7 @@ EXPLANATION = (
     "future, losing a reply that may belong to another caller. C18/R2: transport read buffers are fields of the handle "
     "(checked by C06/R4 as well), and the SSH receiver awaits only mpsc::Receiver::recv. C18/R3: lock guards in Session::recv "
     "are plain MutexGuard locals of the coroutine (released when it is dropped); nothing is forgotten/leaked. C18/R4: a "
-    "never-polled future leaves its slot Pending and a reply parked there later is stored (C05/R3 Pending->Ready). "
+    "never-polled future leaves its slot Pending and a reply parked there later is stored (C05/R3 Pending->Ready); no entry of the request table is removed except after its reply was delivered, and no local of Session::recv / rpc has a type with a Drop impl written in this crate (dropping the future runs no workspace code). "
     "Does not decide executor behaviour or which suspension points a concrete schedule reaches."
 )
 
@@ -106,3 +106,43 @@ def run(ctx):
                 if l is not None and guard_class(b.local_ty(l)):
                     chk.instance("C18/R3", "guard stored into a place that outlives the future", b.name, loc_of(s.get("sp")), holds=False,
                                  key="C18/R3 Session::recv guard-escapes")
+    r4_table_untouched_by_drop(chk, fx)
+
+
+REMOVERS = ("HashMap::<K, V, S, A>::remove", "HashMap::<K, V, S, A>::remove_entry", "HashMap::<K, V, S, A>::clear", "HashMap::<K, V, S, A>::retain",
+            "HashMap::<K, V, S, A>::drain", "HashMap::<K, V, S, A>::extract_if", "OccupiedEntry::<'a, K, V, A>::remove", "OccupiedEntry::<'a, K, V, A>::remove_entry")
+
+
+def r4_table_untouched_by_drop(chk, fx):
+    """Abandoning a reply future must leave the shared table of outstanding requests alone: the abandoned request's reply is still on
+    its way, and whoever reads it off the transport must find the slot to park it in (Pending -> Ready) instead of failing with
+    RequestNotFound.  (a) No entry is ever removed except on the path where its reply has been delivered; (b) dropping the future
+    runs no workspace code: no local of Session::recv / Session::rpc has a type with a Drop impl written in this crate."""
+    n_sites = 0
+    for name, b in sorted(fx.mir.items()):
+        if b.crate != "netconf" or "::tests::" in name:
+            continue
+        for c in b.calls():
+            if c.macro:
+                continue
+            if c.is_fn(*REMOVERS) and any("OutstandingRequest" in g for g in (c.gargs or [])):
+                n_sites += 1
+                ok = False
+                if name.startswith(SESSION + "::recv::"):
+                    deliver = [x for x in b.calls() if x.is_fn("TryInto::try_into", "TryFrom::try_from", "Reply::<O>::into_result") and not x.macro]
+                    ok = any(b.dominates(x.bb, c.bb) for x in deliver)
+                chk.instance("C18/R4", "entry removed from the request table only after its reply was delivered", name, c.loc(), holds=ok,
+                             key="C18/R4 request-table entry removed in %s" % T.strip_generics(name),
+                             detail="a reply that arrives for the removed id makes the caller that reads it fail with RequestNotFound")
+    chk.instance("C18/R4", "no other removal from the table of outstanding requests (%d removal sites)" % n_sites, "netconf", None, holds=True)
+    drops = [it for it in fx.item_list if it["kind"] == "Impl" and (it.get("trait") or "").endswith("ops::Drop") and it.get("crate") == "netconf"]
+    chk.extra["netconf_drop_impls"] = [it.get("self") for it in drops]
+    targets = [(n, b) for n, b in sorted(fx.mir.items()) if n.startswith((SESSION + "::recv", SESSION + "::rpc")) and b.crate == "netconf"]
+    chk.floor("C18/R4 Session::recv / rpc bodies", len(targets), 4)
+    for it in drops:
+        sty = (it.get("self_adt") or it.get("self") or "?")
+        base = sty.split("<")[0]
+        users = sorted({n for n, b in targets for l in range(len(b.locals)) if base in b.local_ty(l)})
+        chk.instance("C18/R4", "Drop impl of %s does not run when a reply future is dropped" % T.short(base, 1), it["qdef"], loc_of(it.get("sp")),
+                     holds=not users, key="C18/R4 drop-impl %s held by reply future" % T.short(base, 1),
+                     detail=("a value of this type is a local of %s: its Drop code runs when the future is abandoned" % [T.short(T.strip_generics(u), 2) for u in users][:2]) if users else None)
